@@ -853,6 +853,76 @@ def r11_abandoned(ctx):
     ctx.borrow(c10.r10_abandoned, 'R11.12')
 
 
+def r11_returning_device(ctx):
+    """The device hook may hand a message back instead of queueing it (docs/ports/custom.rst): every way of asking - receive(),
+    poll(), iter_pending(), iteration, and a MultiPort polling the port - hands that message out; none of them drops it."""
+    inp = ctx.p.cls(P, 'BaseInput')
+    o, recv = ctx.p.lookup_method(inp, 'receive')
+    w = ctx.where(recv)
+    n = 0
+    for how in ('receive(block=False)', 'poll()', 'iter_pending()', 'MultiPort.poll()'):
+        ai = pm.make_interp(ctx)
+        script = {'left': 2}
+
+        def on_receive(interp, port, block, script=script):
+            if script['left']:
+                script['left'] -= 1
+                return pm.note(ctx, 7 - script['left'])
+            return None
+        pm.device_double(ai, ctx, on_receive=on_receive)
+
+        def thunk(how=how):
+            script['left'] = 2
+            port = pm.new_port(ai, ctx, 'BaseInput', [], {})
+            ai.sleeps = 0
+            got = []
+            if how == 'receive(block=False)':
+                got = [pm.call(ai, ctx, port, 'receive', [], {'block': False}) for _ in range(3)]
+            elif how == 'poll()':
+                got = [pm.call(ai, ctx, port, 'poll') for _ in range(3)]
+            elif how == 'iter_pending()':
+                got = list(ai.iterate(pm.call(ai, ctx, port, 'iter_pending'), None)) + [None]
+            else:
+                multi = pm.new_port(ai, ctx, 'MultiPort', [[port]], {})
+                got = [pm.call(ai, ctx, multi, 'poll') for _ in range(3)]
+            return [x.attrs.get('note') if isinstance(x, AObj) else x for x in got]
+        outs = ai.explore(thunk)
+        n += 1
+        ok = len(outs) == 1 and outs[0].kind == 'return' and list(outs[0].value) == [6, 7, None]
+        ctx.require(ok, 'R11.14', f'a device whose _receive() returns its messages, asked through {how}', w,
+                    f'the device hands back two messages (notes 6 and 7), {how} gives {outs[0].value if len(outs) == 1 and outs[0].kind == "return" else outs!r}; '
+                    'expected 6, 7, then nothing', construct=f'{recv.qname}::returned-message')
+        for qn in ai.inlined:
+            ctx.functions.add(qn)
+    ctx.floor('R11.14', n, 4)
+
+
+def r11_unbounded_queues(ctx):
+    """Hand out every message the port had taken in: the queue every kind of port keeps them in is unbounded - the parser's
+    own deque for ports that parse, and no port swaps it for a bounded one (a full bounded deque silently drops the oldest
+    message; a server that is polled rarely would lose what a client sent in one go)."""
+    from . import c18
+    n = 0
+    for kind, build_ in (('BaseInput', lambda ai: pm.new_port(ai, ctx, 'BaseInput', [], {})), ('BaseIOPort', lambda ai: pm.new_port(ai, ctx, 'BaseIOPort', [], {})),
+                         ('EchoPort', lambda ai: pm.new_port(ai, ctx, 'EchoPort', [], {})),
+                         ('MultiPort', lambda ai: pm.new_port(ai, ctx, 'MultiPort', [[pm.new_port(ai, ctx, 'EchoPort', [], {})]], {})),
+                         ('SocketPort', lambda ai: c18.build(ai, ctx, [])[0]),
+                         ('PortServer', lambda ai: pm.new_port(ai, ctx, 'PortServer', ['localhost', 9080], {}, module=c18.S))):
+        ai = pm.make_interp(ctx)
+        pm.device_double(ai, ctx)
+        c18.install_select(ai)
+        ai.summaries['socket.socket'] = lambda i_, a_, k_, n_: pm.AMock('server-socket', {})
+        outs = ai.explore(lambda: build_(ai))
+        n += 1
+        q = outs[0].value.attrs.get('_messages') if len(outs) == 1 and outs[0].kind == 'return' and isinstance(outs[0].value, AObj) else None
+        ok = isinstance(q, AList) and q.kind == 'deque' and getattr(q, 'maxlen', None) is None
+        cls_ = ctx.p.cls(c18.S if kind in ('SocketPort', 'PortServer') else P, kind)
+        ctx.require(ok, 'R11.15', f'{kind}: the queue of pending messages', f'{cls_.module.relpath}:{cls_.node.lineno} {kind}',
+                    f'a new {kind} keeps its pending messages in {q!r} (maxlen {getattr(q, "maxlen", "?")!r}); expected an unbounded deque',
+                    construct=f'{cls_.qname}::bounded-queue')
+    ctx.floor('R11.15', n, 6)
+
+
 def r11_closed_elsewhere(ctx):
     """Iteration ends without an exception whether the port closed before, between or inside receive calls - also when it is
     closed by someone else while the caller waits on a connection that is still up (shared with C18 R18.10)."""
@@ -860,4 +930,4 @@ def r11_closed_elsewhere(ctx):
     ctx.borrow(c18.r18_closed_elsewhere, 'R11.13')
 
 
-RULES = [('R11.13', r11_closed_elsewhere), ('R11.12', r11_abandoned), ('R11.11', r11_second_port), ('R11.10', r11_multi_child_fails), ('R11.9', r11_multi_oneshot), ('R11.8', r11_reset_via_send), ('R11-broken-pipe', r11_broken_pipe), ('R11-socket', r11_socket), ('R11-server', r11_server), ('R11-close', r11_close), ('R11-send', r11_send), ('R11-receive', r11_receive), ('R11-multi', r11_multi)]
+RULES = [('R11.15', r11_unbounded_queues), ('R11.14', r11_returning_device), ('R11.13', r11_closed_elsewhere), ('R11.12', r11_abandoned), ('R11.11', r11_second_port), ('R11.10', r11_multi_child_fails), ('R11.9', r11_multi_oneshot), ('R11.8', r11_reset_via_send), ('R11-broken-pipe', r11_broken_pipe), ('R11-socket', r11_socket), ('R11-server', r11_server), ('R11-close', r11_close), ('R11-send', r11_send), ('R11-receive', r11_receive), ('R11-multi', r11_multi)]
